@@ -7,6 +7,7 @@ CONSTANTS
   MaxLoss = 6
   MaxNegLoss = 3
   MaxRestarts = 0
+  MaxSlow = 0
   PeerModes <- ModesSL
   DenyReplies <- DenyMany
   AckTails <- TailsRssi
